@@ -9,6 +9,7 @@ import (
 	"pgregory.net/rapid"
 
 	"verif/lib/ev"
+	"verif/lib/sched"
 )
 
 // invisibleVersions reports whether key has a physical version the snapshot cannot see.
@@ -74,6 +75,7 @@ func (w *World) bulkDelete(t *rapid.T) {
 func TestC09(t *testing.T) {
 	st := ev.Get("C09", "TestC09")
 	rapid.Check(t, func(t *rapid.T) {
+		sched.SeedRand(t)
 		cfg := genCfg(t, -1, false)
 		w := NewWorld(t, cfg, st)
 		defer w.Teardown()
